@@ -78,11 +78,14 @@ def check(case, rec):
     rec.note_max("max_rel_err_R_fp", rel_fp)
     if rel_fp > 1e-4:
         kp = float(eq.pipe.k)
-        k0 = math.log(ro / ri) / (2 * math.pi * 2 * float(r_pipe))  # the starting value whose bracket is [k0/100, 10 k0]
-        at_end = abs(kp - k0 / 100.0) <= 1e-9 * k0 or abs(kp - 10.0 * k0) <= 1e-9 * k0
+        k0 = math.log(ro / ri) / (2 * math.pi * 2 * float(r_pipe))  # the starting value; documented bracket [k0/100, 10 k0]
+        # conductivity that WOULD reproduce the target, from the equivalent tube's own convective resistance
+        rest = target - float(eq.R_f)
+        k_match = math.log(ro / ri) / (2 * math.pi * rest) if rest > 0 else math.inf
+        in_bracket = k0 / 100.0 <= k_match <= 10.0 * k0
         raise Violation(f"equivalent R_fp {rfp!r} vs original's convective+pipe resistance {target!r} ({rel_fp:.2e} rel; "
-                        f"pipe k ended at {kp}, bracket [{k0 / 100}, {10 * k0}])",
-                        sig={"kind": "rfp_mismatch", "pipe_k_at_bracket_end": at_end})
+                        f"pipe k ended at {kp}; matching k = {k_match:.4g}, documented bracket [{k0 / 100:.4g}, {10 * k0:.4g}])",
+                        sig={"kind": "rfp_mismatch", "matching_k_inside_documented_bracket": in_bracket})
     # effective borehole resistance, as the object reports it (this is what the short-time model and the hybrid loads use)
     rb_eq = float(guarded(eq.calc_effective_borehole_resistance, what="calc_effective_borehole_resistance"))
     rel = abs(rb_eq - rb_orig) / rb_orig
